@@ -202,6 +202,9 @@ class SharedMemoryFileBufferedCollection(FileBufferedCollection):
                 if not type(self)._buffer[self._filename]["modified"]:
                     type(self)._buffer[self._filename]["modified"] = True
                     type(self)._CURRENT_BUFFER_SIZE += 1
+                # Operations like clear() and reset() may rebind self._data, so
+                # the buffer must be pointed at the container being saved.
+                type(self)._buffer[self._filename]["contents"] = self._data
             else:
                 self._initialize_data_in_buffer(modified=True)
                 type(self)._CURRENT_BUFFER_SIZE += 1
